@@ -72,6 +72,12 @@ pub trait Scenario: Sync {
     fn rule(&self) -> &'static str;
 }
 
+/// true when the current batch / replay runs on a single worker (process-global seams may then be varied per run)
+static SINGLE: std::sync::atomic::AtomicBool = std::sync::atomic::AtomicBool::new(true);
+pub fn single_threaded() -> bool {
+    SINGLE.load(Ordering::Relaxed)
+}
+
 thread_local! {
     static LAST_PANIC: RefCell<Option<String>> = const { RefCell::new(None) };
 }
@@ -148,6 +154,7 @@ struct WorkerOut<H> {
 pub fn run_batch<S: Scenario>(s: &S, a: &BatchArgs) -> Value {
     let t0 = Instant::now();
     let threads = a.threads.max(1);
+    SINGLE.store(threads == 1, Ordering::Relaxed);
     let next = AtomicU64::new(0);
     const CHUNK: u64 = 64;
     let mut outs: Vec<WorkerOut<S::Hist>> = Vec::new();
